@@ -91,6 +91,8 @@ def build_part(p):
         return d.MapValue(key=_opt(p.key), value=_opt(p.value), label=p.label)
     if p.ctype == "list":
         return d.ListValue(index=_opt(p.index), value=_opt(p.value), label=p.label)
+    if getattr(p, "generic", False) and _opt(p.key) is not None:
+        return d.MapOrListValue(condition=_opt(p.key), index=_opt(p.index), value=_opt(p.value), label=p.label)
     return d.MapOrListValue(
         key=_opt(p.key), index=_opt(p.index), value=_opt(p.value), label=p.label
     )
